@@ -108,8 +108,26 @@ Theorem C14_replace_refuted_link_fault :
 Proof. exact replace_reforge_fault_refuted. Qed.
 Print Assumptions C14_replace_refuted_link_fault.
 
-(* the flow derivation is NOT all-or-nothing: restored lists come back re-ordered, and a failing new
-   connection leaves the ones made before it *)
+(* a workflow without IO maps: Workflow.replace_child adds a no-op rebuild to the above *)
+Theorem C14_workflow_replace_atomic_partial : forall W st comp old new st' e ph,
+  Sym (cn st) -> NoDupS (cn st) -> InRange W (cn st) -> uniq_labels W old -> no_self W (cn st) old ->
+  unlinked W st comp old ->
+  replace_wf W st [] comp old new = (st', RErr e ph) -> same_graph st st'.
+Proof. intros. eapply replace_core_unlinked_atomic; eauto using replace_wf_no_map_err. Qed.
+Print Assumptions C14_workflow_replace_atomic_partial.
+
+(* deriving the execution flow from the data graph, partial: when it is refused (cyclic data, an upstream
+   node that is no sibling, ...) or the very first new connection fails, every broken run / ran connection
+   is restored -- in graphs whose run / accumulate_and_run / ran channels carry single connections.
+   Missing: channels with several connections (re-ordered), failures after a new connection was made. *)
+Theorem C14_wire_atomic_partial : forall W st orders st' e ph,
+  singles (cn st) (flow_chans W (kids st)) ->
+  wire W st orders = (st', WErr e ph) -> ph = WGraph \/ ph = WWire 0 -> same_graph st st'.
+Proof. exact wire_atomic. Qed.
+Print Assumptions C14_wire_atomic_partial.
+
+(* the flow derivation is NOT all-or-nothing in general: restored lists come back re-ordered, and a failing
+   new connection leaves the ones made before it *)
 Theorem C14_wire_refuted_reorder :
   let r := wire w_three s_wire_cycle [[2]; [1]; []] in
   wf_b w_three (cn s_wire_cycle) = true /\ snd r = WErr CircErr WGraph /\ ~ same_graph s_wire_cycle (fst r).
@@ -157,6 +175,26 @@ Theorem C14_replace_inherits_links : forall W st comp old new st',
      exists x, find_chan W new POut (clabel W o) = Some x /\ rc st' x = Some m).
 Proof. intros W st comp old new st' HU. exact (replace_core_links W st comp old new HU st'). Qed.
 Print Assumptions C14_replace_inherits_links.
+
+(* every connection, partial: after the copy step of the replacement each connection list is the copied
+   partners -- in REVERSED order -- in front of what the channel listed before, and every connected channel
+   of the old node has a namesake on the replacement; so a channel of the (unconnected) replacement lists
+   exactly its namesake's partners, reversed: same connections, same priority only for <= 1 connection.
+   Missing: positions (refuted below); the lists after the old node is disconnected (model + correspondence). *)
+Theorem C14_replace_inherits_connections_partial : forall W st dst src vfh st',
+  dst <> src -> Sym (cn st) -> NoDupS (cn st) -> uniq_labels W src -> third_party W dst src (cn st) ->
+  copy_io W st dst src true vfh = (st', COk) ->
+  linked (cn st) (plan W dst src (cn st)) (cn st') /\
+  (forall ch, In ch (all_chans W src) -> cn st ch <> [] -> my_chan W dst ch <> None) /\
+  (forall ch x, In ch (all_chans W src) -> my_chan W dst ch = Some x -> cn st x = [] ->
+     cn st' x = rev (cn st ch)).
+Proof.
+  intros W st dst src vfh st' Hne HS HN HU HT E.
+  destruct (copy_io_transfers W st dst src Hne HS HN HU HT vfh st' E) as [L M].
+  split; [exact L|]. split; [exact M|].
+  intros ch x Hch My Hx. exact (copy_io_reverses W st dst src Hne HS HN HU HT vfh st' ch x E Hch My Hx).
+Qed.
+Print Assumptions C14_replace_inherits_connections_partial.
 
 (* "with the same priority among multiple connections" is FALSE of the code: n3.x lists [n2.y, n1.y];
    after n1 is replaced by n4 it lists [n4.y, n2.y] -- the replacement jumped the queue (S13 / S7) *)
